@@ -190,7 +190,10 @@ def make_case(rng, cid, T, depth, fmt, dtag, run="serial", pleaf=None, stale_p=0
         leaves = {}
         for i, par in enumerate(level(depth - 1)):
             k = kids(par)[(3 - i) % 4]
-            leaves[k] = _leaf_matrix(rng, T, mode, dtag, values, "const" if fmt == "jpg" else rng.choice(["rand", "full"]))
+            vs = values
+            if i == 0 and mode == "Float":
+                vs = [max(values) + 5000, min(values) - 5000]        # the lone lower-right leaf holds both extremes
+            leaves[k] = _leaf_matrix(rng, T, mode, dtag, vs, "const" if fmt == "jpg" else rng.choice(["rand", "full"]))
     if shape == "all-undefined-parent" and depth >= 1 and can_u:
         # a parent all of whose existing children are entirely undefined files written by a foreign tool
         keepu = True
@@ -593,6 +596,10 @@ def replay_case(job):
                 break
         # ---- C14 observations ride on the same run
         if fmt == "fits" and rec["ranged"] and not rec["keepu"]:
+            lost = [p for p in sorted(set(final) - set(found)) if final[p]["rng"] and p[0] < depth]
+            if lost:
+                add("C14", "V", "tile-range:%s" % runkind, "tile %s is missing although leaf tiles with finite values lie beneath it: "
+                    "their range is lost to its ancestors" % (lost[0],))
             for p in sorted(set(final) & set(found)):
                 rng_ = final[p]["rng"]
                 _arr, hdr = load_raw(found[p], fmt)
@@ -689,7 +696,7 @@ def _digest(rec):
 
 
 def _plain(meta):
-    return dict((k, (sorted(v) if isinstance(v, (set, frozenset)) else v)) for k, v in meta.items() if k not in ("leaves", "scratch"))
+    return dict((k, (sorted(v) if isinstance(v, (set, frozenset)) else v)) for k, v in meta.items() if k not in ("leaves", "scratch", "obs", "rankvals", "compare"))
 
 
 # ------------------------------------------------------------------------------------------------
